@@ -47,6 +47,7 @@ type inst struct {
 	variant func(c *core.Ctx) *inst
 	count   func() int64
 	writer  bool // takes an io.Writer itself (eligible for C19)
+	seqOnly bool // writes to its own objects between calls: sequential histories only
 	// shared read-only inputs and how to fingerprint them (before/after)
 	sharedHash func() uint64
 }
@@ -249,11 +250,12 @@ func sxgInstOf(c *core.Ctx, label string, l *gen.LSXG, kind sxgKind) *inst {
 	}
 	// shared certificates and key for signers created per call
 	certs := []*x509.Certificate{l.Leaf.Cert(), fixtures.CA()}
-	newSigner := func() *signedexchange.Signer {
-		s := lc.Signer()
-		s.Certs = certs
-		return s
-	}
+	// One Signer object shared by all calls and tasks. Its Algorithm is already
+	// set (no lazy initialisation), so DumpSignedMessage and AddSignatureHeader
+	// only read it.
+	sharedSigner := lc.Signer()
+	sharedSigner.Certs = certs
+	newSigner := func() *signedexchange.Signer { return sharedSigner }
 	switch kind {
 	case sxgWrite:
 		in.run = func(w io.Writer) error { return e.Write(w) }
@@ -295,6 +297,80 @@ func sxgInstOf(c *core.Ctx, label string, l *gen.LSXG, kind sxgKind) *inst {
 		v := sxgInstOf(c, label, &l2, kind)
 		v.variant = nil
 		return v
+	}
+	return in
+}
+
+// collidingInst: header maps filled directly with two names that differ only
+// in letter case. Whatever the serializer does with them (refuse, or encode),
+// it must do the same on every call.
+func collidingInst(c *core.Ctx, label string) *inst {
+	l := gen.DrawSXG(c, label+".sxg", 1)
+	name := c.PickStr(label+".name", "Link", "X-Foo", "Vary")
+	v1, v2 := "<a>; rel=x", "<b>; rel=y"
+	useBundle := c.Bool(label + ".bundle")
+	in := &inst{name: label + ":case-colliding header names"}
+	if useBundle {
+		in.run = func(w io.Writer) error {
+			h := l.Unsigned().ResponseHeaders
+			h[name] = []string{v1}
+			h[lower(name)] = []string{v2}
+			h["X-Third"] = []string{"3"}
+			b, err := bundle.Response{Status: 200, Header: h}.EncodeHeader()
+			return writeAll(w, b, err)
+		}
+		return in
+	}
+	in.run = func(w io.Writer) error {
+		e := l.Unsigned()
+		e.ResponseHeaders[name] = []string{v1}
+		e.ResponseHeaders[lower(name)] = []string{v2}
+		e.ResponseHeaders["X-Third"] = []string{"3"}
+		return e.DumpExchangeHeaders(w)
+	}
+	return in
+}
+
+// renewalInst: one Signer object reused across calls while its exported
+// fields are changed in between (certificate renewal): the output for a given
+// set of field values must not depend on what the Signer was used for before.
+func renewalInst(c *core.Ctx, label string) *inst {
+	l := gen.DrawSXG(c, label+".sxg", 1)
+	lc := *l
+	e, err := lc.Sign()
+	if err != nil {
+		panic(err)
+	}
+	var other *fixtures.Leaf
+	for {
+		other = fixtures.Leaves[c.Pick(label+".other", len(fixtures.Leaves))]
+		if other != l.Leaf {
+			break
+		}
+	}
+	mine := []*x509.Certificate{l.Leaf.Cert(), fixtures.CA()}
+	theirs := []*x509.Certificate{other.Cert()}
+	s := lc.Signer()
+	first := c.Bool(label + ".otherFirst")
+	in := &inst{name: label + ":DumpSignedMessage(reused Signer)", seqOnly: true}
+	in.run = func(w io.Writer) error {
+		if first {
+			s.Certs = theirs
+			if err := e.DumpSignedMessage(io.Discard, s); err != nil {
+				return err
+			}
+		}
+		s.Certs = mine
+		if err := e.DumpSignedMessage(w, s); err != nil {
+			return err
+		}
+		s.Certs = theirs
+		return e.DumpSignedMessage(io.Discard, s)
+	}
+	in.variant = func(c *core.Ctx) *inst {
+		fresh := lc.Signer()
+		fresh.Certs = mine
+		return &inst{name: in.name, seqOnly: true, run: func(w io.Writer) error { return e.DumpSignedMessage(w, fresh) }}
 	}
 	return in
 }
@@ -749,4 +825,6 @@ var instMakers = []func(c *core.Ctx) *inst{
 	func(c *core.Ctx) *inst { return miceDigestInst(c, "miced") },
 	func(c *core.Ctx) *inst { return magicInst(c, "magic") },
 	func(c *core.Ctx) *inst { return cborSeqInst(c, "cbor") },
+	func(c *core.Ctx) *inst { return collidingInst(c, "collide") },
+	func(c *core.Ctx) *inst { return renewalInst(c, "renew") },
 }
